@@ -9,6 +9,9 @@
 From Coq Require Import List Arith NArith ZArith QArith Qcanon Bool Lia Permutation.
 From PrefVerif Require Import Lib.Val Model.Relabel.
 From PrefVerif Require Model.Scoring Model.Bucklin Model.Pairwise.
+From PrefVerif Require Import Lib.Perms Lib.Contig.
+From PrefVerif Require Model.SP Model.SC Model.Tree Model.Euclid Model.C1P Model.Approval.
+From PrefVerif Require Proofs.SP Proofs.SC Proofs.Tree Proofs.Euclid Proofs.C1P Proofs.Approval.
 Import ListNotations.
 Local Close Scope Qc_scope.
 Local Close Scope Q_scope.
@@ -554,5 +557,162 @@ Proof.
 Qed.
 
 End PairwiseTables.
+
+(* ============================================================================================================ *)
+(* Part 2a — single-peakedness (C03 / C11): checkers, the mirrored axis test and matrix, the three (R)-models   *)
+Section SPpart.
+Import PrefVerif.Model.SP.
+
+Lemma memN_f a l : memN (f a) (map f l) = memN a l.
+Proof. apply mem_f. Qed.
+
+Lemma nodupN_relabel l : nodupN (map f l) = nodupN l.
+Proof. induction l as [|a r IH]; simpl; [reflexivity|]. now rewrite memN_f, IH. Qed.
+
+Lemma valid_axis_relabel alts axis : valid_axis (map f alts) (map f axis) = valid_axis alts axis.
+Proof.
+  unfold valid_axis. rewrite !map_length, nodupN_relabel, !forallb_map'.
+  f_equal; [f_equal|]; apply forallb_ext'; intros a; apply memN_f.
+Qed.
+
+Theorem spw_check_axis_relabel alts p axis :
+  spw_check_axis (map f alts) (map_profile f p) (map f axis) = spw_check_axis alts p axis.
+Proof.
+  unfold spw_check_axis. rewrite valid_axis_relabel. f_equal.
+  apply (Proofs.SP.sp_axis_profile_map f f_inj).
+Qed.
+
+Lemma strictify_relabel rs : map strictify (map_rankings f rs) = map_profile f (map strictify rs).
+Proof.
+  unfold map_rankings, map_profile. rewrite !map_map. apply map_ext. intros r.
+  apply (Proofs.SP.strictify_map f).
+Qed.
+
+Theorem sp_check_axis_relabel alts rs axis :
+  sp_check_axis (map f alts) (map_rankings f rs) (map f axis) = sp_check_axis alts rs axis.
+Proof. unfold sp_check_axis. rewrite strictify_relabel. apply spw_check_axis_relabel. Qed.
+
+Theorem axis_test_relabel d p axis :
+  is_single_peaked_axis_model d (map_profile f p) (map f axis) = is_single_peaked_axis_model d p axis.
+Proof.
+  unfold is_single_peaked_axis_model. destruct (dt_soc_toc d); [|reflexivity]. f_equal.
+  apply (Proofs.SP.sp_axis_profile_map f f_inj).
+Qed.
+
+(* the 0/1 matrix handed to the PQ-tree / ILP code is literally the same matrix *)
+Theorem sp_matrix_relabel alts p : sp_matrix (map f alts) (map_profile f p) = sp_matrix alts p.
+Proof.
+  unfold sp_matrix, map_profile. induction p as [|o p IH]; simpl; [reflexivity|]. rewrite IH. f_equal.
+  unfold map_order at 2. rewrite map_length. apply map_ext. intros lvl.
+  unfold sp_matrix_row. rewrite map_map. apply map_ext. intros a.
+  unfold map_order. rewrite firstn_map, <- concat_map. apply memN_f.
+Qed.
+
+Theorem pq_tree_model_relabel d alts p :
+  is_single_peaked_pq_tree_model d (map f alts) (map_profile f p) = is_single_peaked_pq_tree_model d alts p.
+Proof. unfold is_single_peaked_pq_tree_model. now rewrite sp_matrix_relabel, map_length. Qed.
+
+Theorem ilp_model_relabel d alts p :
+  is_single_peaked_ILP_model d (map f alts) (map_profile f p) = is_single_peaked_ILP_model d alts p.
+Proof.
+  unfold is_single_peaked_ILP_model. destruct (dt_soc_toc d); [|reflexivity]. f_equal.
+  apply (Proofs.SP.spw_decide_relabel f f_inj).
+Qed.
+
+Theorem elo_model_relabel d alts rs :
+  is_single_peaked_model d (map f alts) (map_rankings f rs) = is_single_peaked_model d alts rs.
+Proof.
+  unfold is_single_peaked_model. destruct (dt_soc d); [|reflexivity]. f_equal.
+  apply (Proofs.SP.sp_decide_relabel f f_inj).
+Qed.
+End SPpart.
+
+(* ============================================================================================================ *)
+(* Part 2b — single-crossing (C04): the witness checker                                                         *)
+Section SCpart.
+Import PrefVerif.Model.SC.
+
+Lemma pair_ok_relabel s a b : pair_ok (map (map f) s) (f a) (f b) = pair_ok s a b.
+Proof.
+  unfold pair_ok. rewrite eqb_f. destruct (N.eqb a b); [reflexivity|]. f_equal.
+  rewrite map_map. apply map_ext. intros o. apply (Proofs.SC.prefers_relabel f f_inj).
+Qed.
+
+Theorem sc_seq_check_relabel alts s : sc_seq_check (map f alts) (map (map f) s) = sc_seq_check alts s.
+Proof.
+  unfold sc_seq_check. rewrite forallb_map'. apply forallb_ext'. intros a.
+  rewrite forallb_map'. apply forallb_ext'. intros b. apply pair_ok_relabel.
+Qed.
+
+Lemma order_eqb_relabel o1 : forall o2, order_eqb (map f o1) (map f o2) = order_eqb o1 o2.
+Proof.
+  induction o1 as [|x t IH]; intros [|y u]; simpl; try reflexivity. now rewrite eqb_f, IH.
+Qed.
+
+Lemma mem_order_relabel o l : mem_order (map f o) (map (map f) l) = mem_order o l.
+Proof. unfold mem_order. rewrite existsb_map'. apply existsb_ext'. intros x. apply order_eqb_relabel. Qed.
+
+Lemma nodup_b_relabel l : nodup_b (map (map f) l) = nodup_b l.
+Proof. induction l as [|x t IH]; simpl; [reflexivity|]. now rewrite mem_order_relabel, IH. Qed.
+
+Lemma same_orders_relabel orders s : same_orders (map (map f) orders) (map (map f) s) = same_orders orders s.
+Proof.
+  unfold same_orders. rewrite nodup_b_relabel, !forallb_map'.
+  f_equal; [f_equal|]; apply forallb_ext'; intros o; apply mem_order_relabel.
+Qed.
+
+Theorem sc_witness_check_relabel alts orders s :
+  sc_witness_check (map f alts) (map (map f) orders) (map (map f) s) = sc_witness_check alts orders s.
+Proof. unfold sc_witness_check. now rewrite same_orders_relabel, sc_seq_check_relabel. Qed.
+End SCpart.
+
+(* ============================================================================================================ *)
+(* Part 2c — single-peaked on a tree (C13): an accepted tree stays accepted after renaming                      *)
+Theorem spt_check_relabel alts p T :
+  Tree.spt_check alts p T = true -> Tree.spt_check (map f alts) (map_rankings f p) (map_edges f T) = true.
+Proof.
+  rewrite !Proofs.Tree.spt_check_correct. intros H.
+  apply (Proofs.Tree.spt_spec_map f alts p T); [|exact H]. intros a b _ _. apply f_inj.
+Qed.
+
+Theorem spt_checkf_relabel alts p T :
+  Tree.spt_checkf alts p T = true -> Tree.spt_checkf (map f alts) (map_rankings f p) (map_edges f T) = true.
+Proof. rewrite !Proofs.Tree.spt_checkf_eq. apply spt_check_relabel. Qed.
+
+(* ============================================================================================================ *)
+(* Part 2d — 1-Euclidean (C19): the checker accepts the renamed embedding iff it accepts the original           *)
+Section EuclPart.
+Import PrefVerif.Model.Euclid.
+
+Lemma apos_lookup_relabel apos a : apos_lookup (map_keys f apos) (f a) = apos_lookup apos a.
+Proof.
+  induction apos as [|[b x] t IH]; simpl; [reflexivity|]. rewrite eqb_f. destruct (N.eqb b a); [reflexivity|]. exact IH.
+Qed.
+
+Lemma dists_relabel v apos r : dists v (map_keys f apos) (map f r) = dists v apos r.
+Proof. induction r as [|a t IH]; simpl; [reflexivity|]. now rewrite apos_lookup_relabel, IH. Qed.
+
+Lemma forallb2_relabel apos : forall (vpos : list Q) profile,
+  forallb2 (fun v r => eucl_vote_ok v (map_keys f apos) r) vpos (map (map f) profile)
+  = forallb2 (fun v r => eucl_vote_ok v apos r) vpos profile.
+Proof.
+  induction vpos as [|x t IH]; intros [|r p]; simpl; try reflexivity.
+  unfold eucl_vote_ok at 1 3. now rewrite dists_relabel, IH.
+Qed.
+
+Theorem eucl_check_relabel alts profile vpos apos :
+  eucl_check (map f alts) (map_rankings f profile) vpos (map_keys f apos) = eucl_check alts profile vpos apos.
+Proof.
+  unfold eucl_check, map_rankings. rewrite forallb_map', map_length, forallb2_relabel. f_equal. f_equal.
+  apply forallb_ext'. intros a. unfold has_pos. now rewrite apos_lookup_relabel.
+Qed.
+
+Theorem eucl_refuted_relabel alts profile :
+  eucl_refuted (map f alts) (map_rankings f profile) = eucl_refuted alts profile.
+Proof.
+  unfold eucl_refuted, map_rankings.
+  now rewrite (Proofs.SP.sp_decide_relabel f f_inj), (Proofs.SC.sc_decide_relabel f f_inj).
+Qed.
+End EuclPart.
 
 End Inj.
